@@ -18,8 +18,10 @@
 package types
 
 import (
+	"bytes"
 	"encoding/base64"
 	"encoding/json"
+	"math"
 	"reflect"
 	"time"
 )
@@ -207,7 +209,10 @@ func (c *ColumnImage) MarshalJSON() ([]byte, error) {
 func (c *ColumnImage) UnmarshalJSON(data []byte) error {
 	var err error
 	tmpImage := make(map[string]interface{})
-	if err := json.Unmarshal(data, &tmpImage); err != nil {
+	decoder := json.NewDecoder(bytes.NewReader(data))
+	// keep numbers as written: a float64 cannot hold every 64-bit integer
+	decoder.UseNumber()
+	if err := decoder.Decode(&tmpImage); err != nil {
 		return err
 	}
 	var (
@@ -218,24 +223,36 @@ func (c *ColumnImage) UnmarshalJSON(data []byte) error {
 		actualValue interface{}
 	)
 	keyType = tmpImage["keyType"].(string)
-	columnType = int16(int64(tmpImage["type"].(float64)))
+	columnTypeNumber, err := tmpImage["type"].(json.Number).Int64()
+	if err != nil {
+		return err
+	}
+	columnType = int16(columnTypeNumber)
 	columnName = tmpImage["name"].(string)
 	value = tmpImage["value"]
 
 	if value != nil {
 		switch JDBCType(columnType) {
-		case JDBCTypeReal: // 4 Bytes
-			actualValue = value.(float32)
-		case JDBCTypeDecimal, JDBCTypeDouble: // 8 Bytes
-			actualValue = value.(float64)
-		case JDBCTypeTinyInt: // 1 Bytes
-			actualValue = int8(value.(float64))
-		case JDBCTypeSmallInt: // 2 Bytes
-			actualValue = int16(value.(float64))
-		case JDBCTypeInteger: // 4 Bytes
-			actualValue = int32(value.(float64))
-		case JDBCTypeBigInt: // 8Bytes
-			actualValue = int64(value.(float64))
+		case JDBCTypeReal, JDBCTypeDecimal, JDBCTypeDouble:
+			if actualValue, err = value.(json.Number).Float64(); err != nil {
+				return err
+			}
+		case JDBCTypeTinyInt, JDBCTypeSmallInt, JDBCTypeInteger, JDBCTypeBigInt:
+			var n int64
+			if n, err = value.(json.Number).Int64(); err != nil {
+				return err
+			}
+			// narrow to the column's width only when the value fits (unsigned columns exceed it)
+			switch {
+			case JDBCType(columnType) == JDBCTypeTinyInt && n >= math.MinInt8 && n <= math.MaxInt8:
+				actualValue = int8(n)
+			case JDBCType(columnType) == JDBCTypeSmallInt && n >= math.MinInt16 && n <= math.MaxInt16:
+				actualValue = int16(n)
+			case JDBCType(columnType) == JDBCTypeInteger && n >= math.MinInt32 && n <= math.MaxInt32:
+				actualValue = int32(n)
+			default:
+				actualValue = n
+			}
 		case JDBCTypeTimestamp: // 4 Bytes
 			actualValue, err = time.Parse(time.RFC3339Nano, value.(string))
 			if err != nil {
@@ -257,8 +274,16 @@ func (c *ColumnImage) UnmarshalJSON(data []byte) error {
 				val = []byte(value.(string))
 			}
 			actualValue = string(val)
-		case JDBCTypeBinary, JDBCTypeVarBinary, JDBCTypeLongVarBinary, JDBCTypeBit:
+		case JDBCTypeBinary, JDBCTypeVarBinary, JDBCTypeLongVarBinary:
 			actualValue = value
+		case JDBCTypeBit:
+			if number, ok := value.(json.Number); ok {
+				if actualValue, err = number.Int64(); err != nil {
+					return err
+				}
+			} else {
+				actualValue = value
+			}
 		}
 	}
 	*c = ColumnImage{
